@@ -36,7 +36,7 @@ FRAGMENTS = ["[Song]", "[SyncTrack]", "[Events]", "[ExpertSingle]", "[EasyDrums]
 
 def required(tier):
     # which documented error a given bad text raises is the implementation's choice: the error classes are reported, not gated on
-    return ["rejected_with_a_documented_error", "parsed_and_rendered>=1000",
+    return ["rejected_with_a_documented_error", "parsed_and_rendered>=1000", "origin:extremes",
             "op:delete_line", "op:duplicate_line", "op:swap_lines", "op:move_structural", "op:char_insert", "op:char_delete", "op:char_substitute",
             "origin:fragments", "origin:unfaulted", "hit:Song", "hit:SyncTrack", "hit:Events", "hit:instrument"]
 
@@ -177,9 +177,28 @@ def judge(rec, text, origin):
         rec.key(text)
 
 
+def extremes():
+    """well-formed charts at the corners of the stated bounds (8-digit numbers, TS exponent 63): every event kind at ticks
+    0 / 1 / 99999999 for the coarsest and finest resolutions and the slowest and fastest tempi"""
+    out = []
+    for res in (1, 192, 99999999):
+        for n in (1, 120000, 99999999):
+            for late in (1, 90000000, 99999999):
+                secs = [("Song", [f"  Resolution = {res}", "  Offset = 99999999", "  Difficulty = 99999999", "  PreviewStart = 99999999"]),
+                        ("SyncTrack", ["  0 = TS 4", f"  0 = B {n}", f"  {late} = TS 99999999 63", f"  {late} = A 99999999"]),
+                        ("Events", ["  0 = E \"section a\"", f"  {late} = E \"lyric b\"", f"  {late} = E \"c\""]),
+                        ("ExpertSingle", ["  0 = N 0 0", f"  {late} = N 7 99999999", f"  {late} = N 6 0", f"  {late} = S 2 99999999", f"  {late} = E solo"]),
+                        ("EasyDrums", ["  0 = N 1 0", f"  {late} = N 0 99999999", f"  {late} = N 4 1", f"  {late} = N 5 0"])]
+                out.append(gen.render_sections(secs))
+    return out
+
+
 def run_shard(shard, rec, tier, seed):
     harness.setup(with_contracts=False)
     base = None
+    if shard["name"].endswith("-0"):
+        for text in extremes():
+            judge(rec, text, "extremes")
     for i in range(shard["count"]):
         rng = harness.rng_for(seed, ID, shard["name"], i)
         r = i % 20
